@@ -2,7 +2,7 @@
 import z3
 from harness import *
 
-CSI_TOKENS = ['csi0', 'csi1', 'csi3', 'osc_bel0', 'osc_bel1', 'osc_st1', 'osc_bel3']
+CSI_TOKENS = ['csi0', 'csi1', 'csi3', 'osc_bel0', 'osc_bel1', 'osc_st1', 'osc_bel3', 'osc_bel2', 'osc_st2']
 
 
 class C10(Harness):
@@ -61,14 +61,18 @@ class C10(Harness):
                 seq.append(f)
             else:
                 seq.append(ord(']'))
-                if o == 'osc_bel3':
+                if o in ('osc_bel2', 'osc_st2'):
+                    x = I.sym_char('x%d' % i, 0, 0x7f, exclude=(7, ESC))
+                    y = I.sym_char('z%d' % i, 0, 0x7f, exclude=(7, ESC))
+                    seq += [x, y]
+                elif o == 'osc_bel3':
                     k = (2, 3, 4)[I.choose(3, 'pclass')]
                     lo, hi = CLASS_RANGE[k]
                     seq.append((I.sym_char('y%d' % i, lo, hi), k))
                 elif o != 'osc_bel0':
                     x = I.sym_char('x%d' % i, 0, 0x7f, exclude=(7, ESC))
                     seq.append(x)
-                if o == 'osc_st1':
+                if o in ('osc_st1', 'osc_st2'):
                     seq += [ESC, ord('\\')]
                 else:
                     seq.append(7)
